@@ -1002,7 +1002,9 @@ func (w *World) Cleanup(peer string) {
 	before := w.EventCount("conn.shutdown.done", p.LocalAddr())
 	_ = p.Send(message.NewAssociationReleaseRequest(p.NextSeq(), ie.NewNodeID(p.NodeID, "", "")))
 
-	if p.WaitN(1, 300*time.Millisecond) {
+	// (a generous limit: on a loaded machine the answer has been seen to take longer than 300 ms, and a late answer would be
+	// attributed to the next step)
+	if p.WaitN(1, 2*time.Second) {
 		if !w.WaitEventCount("conn.shutdown.done", p.LocalAddr(), before+1, 400*time.Millisecond) {
 			time.Sleep(40 * time.Millisecond)
 		}
